@@ -343,7 +343,11 @@ class KeyAnalysis:
             if ft[0] == "fn":
                 return self.repo.functions.get(ft[1])
             if ft[0] == "g":
-                return self.repo.functions.get(ft[1])
+                f_ = self.repo.functions.get(ft[1])
+                if f_ is None and ft[1] in self.repo.classes:
+                    # constructor call: bind to __init__ (its `self` is skipped below)
+                    f_ = self.repo.lookup_method(self.repo.classes[ft[1]], "__init__")
+                return f_
             if ft[0] == "a" and ft[1] == n("self") and fi.cls is not None:
                 return self.repo.lookup_method(fi.cls, ft[2])
             return None
